@@ -16,7 +16,7 @@ var rtcmPkgs = []string{"rtcm/handler", "rtcm/header", "rtcm/utils", "rtcm/pushb
 	"rtcm/type_msm7/message", "rtcm/type_msm7/satellite", "rtcm/type_msm7/signal"}
 
 func checkC15(c *Ctx) {
-	c.Explanation = "Decides the absence of hidden state on the decode/display path: (R1) package-level variables of the rtcm packages are written (assignments, map updates, deletes, element stores) only in init functions, so every frame and every handler sees the same tables; (R2) no code reachable from decoding or display stores through the raw byte buffer of a frame (the []byte input of the decoders, Message.RawData); (R3) display is idempotent: String, PrepareForDisplay, Analyse and their helpers store only into fields of the message they are given, never a value computed from that field's previous content (no append/accumulate), and never into MessageType, RawData or the time lines; (R4) the handler retains no buffer: Handler and the push-back channel have no field that could alias a delivered RawData other than the push-back bytes, and each delivered RawData derives from an allocation made in the same fetch; (R5) consumers get independent copies: the pipeline sends Message values (not pointers) and neither the framer nor the fan-out calls String/Analyse before sending, so the Readable part is nil when the copies are made and RawData is never written afterwards (R2); (R6) decoding and display read no package variable that is written outside init."
+	c.Explanation = "Decides the absence of hidden state on the decode/display path: (R1) package-level variables of the rtcm packages are written (assignments, map updates, deletes, element stores) only in init functions, so every frame and every handler sees the same tables; (R2) no code reachable from decoding or display stores through the raw byte buffer of a frame (the []byte input of the decoders, Message.RawData); (R3) display is idempotent: String, PrepareForDisplay, Analyse and their helpers store only into fields of the message they are given, never a value computed from that field's previous content (no append/accumulate), and never into MessageType, RawData or the time lines; (R4) the handler retains no buffer: Handler and the push-back channel have no field that could alias a delivered RawData other than the push-back bytes, and each delivered RawData derives from an allocation made in the same fetch; (R5) consumers get independent copies: the pipeline sends Message values (not pointers) and neither the framer nor the fan-out calls String/Analyse before sending, so the Readable part is nil when the copies are made and RawData is never written afterwards (R2); (R6) decoding and display read no package variable that is written outside init. (R7) whether a time conversion reports an error is decided by the timestamp alone, never by the handler's stored week state, so the error text of a message does not depend on the frames decoded before it."
 	c.NotDecided = "the MSM time lines (by design they follow the handler's history); purity of fmt/hex/time formatting."
 	P := c.P
 	roots := c07Roots(c, "C15-anchor")
@@ -166,45 +166,7 @@ func checkC15(c *Ctx) {
 		})
 	}
 	// ---- R4 no retained buffers
-	for _, t := range []struct{ pkg, typ string }{{"rtcm/handler", "Handler"}} {
-		n := P.Named(t.pkg, t.typ)
-		if n == nil {
-			c.Unresolved("C15-R4", t.pkg+"."+t.typ)
-			continue
-		}
-		st := n.Underlying().(*types.Struct)
-		bad := false
-		for i := 0; i < st.NumFields(); i++ {
-			switch st.Field(i).Type().Underlying().(type) {
-			case *types.Slice, *types.Map, *types.Pointer, *types.Interface, *types.Chan:
-				if !canHoldBytes(st.Field(i).Type(), map[types.Type]bool{}) {
-					// e.g. a pointer to a struct of counters: it cannot alias or retain a frame's bytes
-					continue
-				}
-				bad = true
-				c.Fail("C15-R4", "handler-field("+st.Field(i).Name()+")", st.Field(i).Pos(), "refuted", "the handler has a reference-typed field that could retain or share per-frame data between messages")
-			}
-		}
-		if !bad {
-			c.OK("C15-R4", "handler-holds-no-references", n.Obj().Pos(), "Handler consists of time values, counters and a log level only")
-		}
-	}
-	// each delivered RawData derives from a buffer made in the junk eater of the same fetch (C02 accumulator chain)
-	if f := newFraming(c, "C15-R4"); f != nil {
-		var eatInit []ssa.Value
-		eachInstr(f.pl.eat, func(ins ssa.Instruction) {
-			if v, ok := ins.(ssa.Value); ok && isFreshSlice(v) && f.A.LenOf(v).Equal(LinConst(0)) {
-				eatInit = append(eatInit, v)
-			}
-		})
-		A := f.accumulatorsOnly(f.pl.eat, eatInit)
-		okRet := len(eatInit) == 1
-		for _, r := range returnsOf(f.pl.eat) {
-			if !A[r.Results[0]] {
-				okRet = false
-			}
-		}
-		c.Check(okRet, "C15-R4", "fresh-buffer-per-fetch", f.pl.eat.Pos(), "the frame buffer of every fetch starts as a fresh allocation", "the frame buffer is not freshly allocated per fetch (frames could share storage)")
+	if f := ruleFreshFrameBuffers(c, "C15-R4"); f != nil {
 		// ---- R5 fan-out by value, no display before sending
 		for _, fn := range []*ssa.Function{f.pl.stream, f.pl.fanout, f.pl.fetch, f.pl.getMsg} {
 			for g := range P.ReachableModule([]*ssa.Function{fn}) {
@@ -239,6 +201,11 @@ func checkC15(c *Ctx) {
 	if nrd == 0 {
 		c.OK("C15-R6", "reads-only-init-time-tables", token.NoPos, "every package variable read on the decode/display path is written only by initialisers")
 	}
+	// ---- R7 whether a time conversion fails depends on the timestamp alone, never on the handler's
+	// history: the error text of a message (and with it whether its body is displayed at all) is
+	// the same whatever was decoded before
+	ruleTimeErrorsHistoryFree(c, "C15-R7")
+	c.MinInstances("C15-R7", 4)
 	c.MinInstances("C15-R1", 2)
 	c.MinInstances("C15-R3", 8)
 	c.MinInstances("C15-R5", 2)
@@ -434,4 +401,161 @@ func canHoldBytes(t types.Type, seen map[types.Type]bool) bool {
 		return true
 	}
 	return true
+}
+
+// ruleFreshFrameBuffers (C15-R4, C09-R6): the handler has no field that could retain or share a frame's
+// bytes, and the buffer of every fetch starts as a fresh allocation, so a delivered message never
+// shares storage with what the framer does afterwards.  Returns the framing context for further rules.
+func ruleFreshFrameBuffers(c *Ctx, rule string) *framing {
+	P := c.P
+	for _, t := range []struct{ pkg, typ string }{{"rtcm/handler", "Handler"}} {
+		n := P.Named(t.pkg, t.typ)
+		if n == nil {
+			c.Unresolved(rule, t.pkg+"."+t.typ)
+			continue
+		}
+		st := n.Underlying().(*types.Struct)
+		bad := false
+		for i := 0; i < st.NumFields(); i++ {
+			switch st.Field(i).Type().Underlying().(type) {
+			case *types.Slice, *types.Map, *types.Pointer, *types.Interface, *types.Chan:
+				if !canHoldBytes(st.Field(i).Type(), map[types.Type]bool{}) {
+					// e.g. a pointer to a struct of counters: it cannot alias or retain a frame's bytes
+					continue
+				}
+				bad = true
+				c.Fail(rule, "handler-field("+st.Field(i).Name()+")", st.Field(i).Pos(), "refuted", "the handler has a reference-typed field that could retain or share per-frame data between messages")
+			}
+		}
+		if !bad {
+			c.OK(rule, "handler-holds-no-references", n.Obj().Pos(), "Handler consists of time values, counters and a log level only")
+		}
+	}
+	// each delivered RawData derives from a buffer made in the junk eater of the same fetch (C02 accumulator chain)
+	f := newFraming(c, rule)
+	if f != nil {
+		var eatInit []ssa.Value
+		eachInstr(f.pl.eat, func(ins ssa.Instruction) {
+			if v, ok := ins.(ssa.Value); ok && isFreshSlice(v) && f.A.LenOf(v).Equal(LinConst(0)) {
+				eatInit = append(eatInit, v)
+			}
+		})
+		A := f.accumulatorsOnly(f.pl.eat, eatInit)
+		okRet := len(eatInit) == 1
+		for _, r := range returnsOf(f.pl.eat) {
+			if !A[r.Results[0]] {
+				okRet = false
+			}
+		}
+		c.Check(okRet, rule, "fresh-buffer-per-fetch", f.pl.eat.Pos(), "the frame buffer of every fetch starts as a fresh allocation", "the frame buffer is not freshly allocated per fetch (frames could share storage)")
+	}
+	return f
+}
+
+// ruleTimeErrorsHistoryFree (C15-R7): in the four constellation converters and in every module function
+// they call with handler state as an argument, no branch that leads to an error return is decided by
+// the handler's week state (a Handler field, or a parameter that receives one).
+func ruleTimeErrorsHistoryFree(c *Ctx, rule string) {
+	P := c.P
+	H := P.Named("rtcm/handler", "Handler")
+	if H == nil {
+		c.Unresolved(rule, "rtcm/handler.Handler")
+		return
+	}
+	isStateLoad := func(v ssa.Value) bool {
+		ld, ok := v.(*ssa.UnOp)
+		if !ok || ld.Op != token.MUL {
+			return false
+		}
+		fa, ok := ld.X.(*ssa.FieldAddr)
+		if !ok {
+			return false
+		}
+		pt, ok := fa.X.Type().Underlying().(*types.Pointer)
+		return ok && types.Identical(pt.Elem(), H)
+	}
+	var dependsOnState func(v ssa.Value, stateParams map[*ssa.Parameter]bool, d int, seen map[ssa.Value]bool) bool
+	dependsOnState = func(v ssa.Value, stateParams map[*ssa.Parameter]bool, d int, seen map[ssa.Value]bool) bool {
+		if seen[v] {
+			return false
+		}
+		seen[v] = true
+		if isStateLoad(v) {
+			return true
+		}
+		switch x := v.(type) {
+		case *ssa.Const, *ssa.Global, *ssa.Function, *ssa.Builtin:
+			return false
+		case *ssa.Parameter:
+			return stateParams[x]
+		}
+		if call, isCall := v.(*ssa.Call); isCall {
+			// what a module callee makes of the state it is handed is judged in the callee
+			if g := call.Call.StaticCallee(); g != nil && P.InModule(g) && g.Blocks != nil {
+				return false
+			}
+		}
+		if d == 0 {
+			return true
+		}
+		ins, ok := v.(ssa.Instruction)
+		if !ok {
+			return true
+		}
+		for _, op := range ins.Operands(nil) {
+			if *op != nil && dependsOnState(*op, stateParams, d-1, seen) {
+				return true
+			}
+		}
+		return false
+	}
+	check := func(fn *ssa.Function, stateParams map[*ssa.Parameter]bool, label string) {
+		bad := false
+		for _, r := range returnsOf(fn) {
+			if len(r.Results) == 0 {
+				continue
+			}
+			e := r.Results[len(r.Results)-1]
+			if !isErrorType(e.Type()) || isNilConst(e) {
+				continue
+			}
+			for _, f := range dominatingFacts(r.Block()) {
+				if dependsOnState(f.Cond, stateParams, 12, map[ssa.Value]bool{}) {
+					bad = true
+					c.Fail(rule, "error-independent-of-history("+label+")", r.Pos(), "refuted", label+" reports an error on a path chosen by the handler's stored week state: whether a frame's time (and so its display) is an error depends on the frames decoded before it")
+				}
+			}
+		}
+		if !bad {
+			c.OK(rule, "error-independent-of-history("+label+")", fn.Pos(), "error exits are decided by the timestamp alone")
+		}
+	}
+	for _, n := range []string{"getUTCFromGPSTime", "getUTCFromGalileoTime", "getUTCFromBeidouTime", "getUTCFromGlonassTime"} {
+		fn := P.Func("rtcm/handler", "(*Handler)."+n)
+		if fn == nil {
+			c.Unresolved(rule, "rtcm/handler.(*Handler)."+n)
+			continue
+		}
+		check(fn, nil, n)
+		// callees that receive state
+		eachInstr(fn, func(ins ssa.Instruction) {
+			call, ok := ins.(*ssa.Call)
+			if !ok {
+				return
+			}
+			g := call.Call.StaticCallee()
+			if g == nil || !P.InModule(g) || g.Blocks == nil {
+				return
+			}
+			sp := map[*ssa.Parameter]bool{}
+			for i, a := range call.Call.Args {
+				if i < len(g.Params) && dependsOnState(a, nil, 6, map[ssa.Value]bool{}) {
+					sp[g.Params[i]] = true
+				}
+			}
+			if len(sp) > 0 {
+				check(g, sp, n+"→"+g.Name())
+			}
+		})
+	}
 }
